@@ -133,7 +133,7 @@ func (rc *recorder) all() []*callRec {
 func commonOpts(c caseSpec, ignored *[]string) []estargz.Option {
 	var o []estargz.Option
 	if c.family() == "zstdchunked" {
-		o = []estargz.Option{estargz.WithChunkSize(c.Chunk)}
+		o = []estargz.Option{estargz.WithChunkSize(c.Chunk), estargz.WithParallelism(c.Workers)}
 	} else {
 		o = []estargz.Option{
 			estargz.WithCompressionLevel(c.Level),
@@ -156,6 +156,9 @@ func perLayerOpts(c caseSpec, img *imageSrc) map[digest.Digest][]estargz.Option 
 			continue
 		}
 		o := []estargz.Option{estargz.WithChunkSize(l.Chunk)}
+		if c.Kind == kindZstdPer {
+			o = append(o, estargz.WithParallelism(c.Workers)) // this constructor takes no common options
+		}
 		if l.Prio >= 0 {
 			o = append(o, estargz.WithPrioritizedFiles([]string{markerName(l.Prio)}))
 		}
@@ -298,7 +301,7 @@ func runConversion(ctx context.Context, r *vf.Run, c caseSpec, img *imageSrc, e 
 	tConv := time.Now()
 	panicked, pv, stack := vf.Recover(func() { newDesc, cerr = cf(ctx, e.cs, root) })
 	if os.Getenv("VERIF_C19_TIMING") != "" {
-		r.Logf("case %d rep %d %s: %d layers converted in %v", c.Idx, rep, c.Kind, len(c.Layers), time.Since(tConv).Round(time.Millisecond))
+		r.Logf("%s rep %d: converted in %v", c.desc(), rep, time.Since(tConv).Round(time.Millisecond))
 		defer func(t time.Time) { r.Logf("case %d rep %d: checked in %v", c.Idx, rep, time.Since(t).Round(time.Millisecond)) }(time.Now())
 	}
 	if panicked {
@@ -307,6 +310,11 @@ func runConversion(ctx context.Context, r *vf.Run, c caseSpec, img *imageSrc, e 
 		return
 	}
 	recs := rc.all()
+	if os.Getenv("VERIF_C19_TIMING") != "" {
+		for _, rec := range recs {
+			r.Logf("   call %s: start +%v dur %v", rec.in.MediaType, time.Duration(rec.t0-int64(tConv.Sub(t0))).Round(time.Millisecond), time.Duration(rec.t1-rec.t0).Round(time.Millisecond))
+		}
+	}
 	if cerr != nil {
 		r.Inconclusive("conversion returned an error (" + c.Kind + "): " + errClass(cerr))
 		r.Distinct("conversion_errors", c.Kind+": "+errClass(cerr))
